@@ -356,6 +356,15 @@ func runProperty(e *Engine, prop, tier, propsFile, evidence, replays, knownFile 
 				rp["replay"] = detail
 			}
 		}
+		if suffix != "" {
+			// functions with an executable reference: look for a concrete failing input on the real code
+			if ok, detail := oracleReplay(e, o, dir); detail != "" {
+				rp["oracle_replay"] = detail
+				if ok {
+					suffix = ""
+				}
+			}
+		}
 		b, _ := json.MarshalIndent(rp, "", " ")
 		os.WriteFile(path, b, 0o644)
 		fmt.Printf("VIOLATION property=%s replay=%s obligation=%s (%s; %s)%s\n", prop, path, o.ID, o.Desc, o.Status, suffix)
